@@ -358,6 +358,43 @@ def check_objc_types(res, m, texts, replay):
                 nm = pre + pascal(r.name) + ('' if r.version == 1 else 'V%d' % r.version)
                 expect_once(res, replay, cfg, 'route_object', r'^\+ \(DBRoute \*\)%s;' % nm, headers,
                             {'route': r.name}, 'v%d' % r.version)
+    # initializers: a subclass hands its inherited fields to an initializer that the
+    # parent's header declares (a selector nobody declares is an undeclared name)
+    impl = {}
+    for p, t in texts.items():
+        if p.endswith('.m'):
+            for mt in re.finditer(r'(?ms)^@implementation (\w+)\b(.*?)^@end', t):
+                impl[mt.group(1)] = mt.group(2)
+
+    def selector(call):
+        parts = call.split()
+        if len(parts) == 1 and ':' not in parts[0]:
+            return parts[0]
+        return ''.join(x.split(':')[0] + ':' for x in parts if ':' in x)
+    for ns in m.namespaces:
+        pre = 'DB' + pascal(ns.name).upper()
+        for d in ns.defs:
+            if d.kind != 'struct' or not d.parent:
+                continue
+            cls = pre + d.name
+            pcls = 'DB' + pascal(d.parent[0]).upper() + d.parent[1]
+            phdr = [t for p, t in texts.items() if p.endswith('/%s.h' % pcls)]
+            body = impl.get(cls)
+            if body is None or len(phdr) != 1:
+                continue
+            declared = set()
+            for mt in re.finditer(r'(?m)^- \(instancetype\)(init[^;{]*);', phdr[0]):
+                sig = re.sub(r'\([^)]*\)', '', mt.group(1))
+                declared.add(selector(sig))
+            for mt in re.finditer(r'self = \[super (init[^\]]*)\];', body):
+                res.count('super_initializers_checked')
+                sel = selector(mt.group(1))
+                if sel not in declared:
+                    res.violation({'kind': 'undeclared_super_initializer', 'backend': cfg},
+                                  {'type': cls, 'parent': pcls, 'selector': sel, 'declared': sorted(declared)},
+                                  replay)
+                else:
+                    res.see(cfg, 'super_init', 'depth%d' % min(3, len(m.ancestors(d))))
     # user-type names: DB<NS><Name>... tokens must start with a declared type name
     allcode = '\n'.join(texts.values())
     prefixes = {}
